@@ -48,6 +48,12 @@ WalkTrue(e) ==
                                   /\ \E j \in 1..(i - 1) : s[j].d = s[i].d - 1
                                   /\ LET j == ParentOf(s, i) IN w[i].pk = s[j].k /\ w[i].pl = s[j].l /\ w[i].pc = s[j].c
 
+\* ast.MultiVisitor: visitors that stop descending below depths 1, never, 2, 0 each see the traversal they would see alone
+Limits == << 1, -1, 2, 0 >>
+MultiWalkTrue(e) ==
+  /\ Len(e.mwalk) = Len(Limits)
+  /\ \A i \in 1..Len(Limits) : e.mwalk[i] = SelectSeq(e.walk, LAMBDA x : Limits[i] < 0 \/ x.d <= Limits[i])
+
 InsideDocument(e) == \A i \in 1..Len(e.perrs) :
    /\ e.perrs[i].l >= 1 /\ e.perrs[i].l <= Len(e.linelens)
    /\ e.perrs[i].c >= 1 /\ e.perrs[i].c <= e.linelens[e.perrs[i].l] + 1
@@ -71,7 +77,8 @@ NormalChecks(e, r) ==
     <<"known-classes-otherwise-exact", \A i \in 1..N(e) : (Early(e, i) \/ Shared(e, i)) => ObsPos(e, i) = CodeExp(e, r, i)>>,
     <<"docstrings-attach-to-the-adjacent-definition",
         \A i \in 1..N(e) : e.nodes[i].doc = (IF e.xnodes[i].hasdoc THEN DocText(e, r.tdocs[i]) ELSE "")>>,
-    <<"walk-visits-every-node-once-with-its-parent", WalkTrue(e)>> }
+    <<"walk-visits-every-node-once-with-its-parent", WalkTrue(e)>>,
+    <<"combined-visitors-each-see-their-own-traversal", MultiWalkTrue(e)>> }
 
 ScriptChecks(e, r) ==
   IF e.emptybc /\ Failed(NormalChecks(e, r)) # {}
